@@ -644,6 +644,12 @@ htp_status_t htp_mpart_part_handle_data(htp_multipart_part_t *part, const unsign
                 if (data[len - 1] == LF) len--;
             }
 
+            // A line that was assembled from pieces is kept as a string
+            // further down; remove the line ending from it as well.
+            if (line != NULL) {
+                bstr_adjust_len(line, len);
+            }
+
             // Is it an empty line?
             if (len == 0) {
                 // Empty line; process headers and switch to data mode.
